@@ -7,7 +7,9 @@ CLAIMED = {
  "C03": ("differential vs. an independent reference grammar over generated sentences, one-edit mutants, token soup, lexical corner cases", "4/C03"),
  "C04": ("construction oracle (tree -> text -> public Ast), reference-parser differential, parenthesisation metamorphic relation", "4/C04"),
  "C07": ("small-scope enumeration + random search against a 128-bit transcription of Python's slice rule", "4/C07"),
+ "C09": ("round trip by construction (spell a value, evaluate, compare) and per-form reference decoder differential over arbitrary delimiter/backslash/escape juxtapositions", "4/C09"),
  "C10": ("generated value pairs in varied spellings against own deep-equality / numeric-order model and the algebraic laws", "4/C10"),
+ "C11": ("metamorphic/self-consistency: compound expression vs. its separately evaluated parts, implementation only", "4/C11"),
 }
 NOT_YET = "check not built yet in this revision (work in progress; DESIGN.md section 4 has the plan)"
 NA = {}
